@@ -80,7 +80,7 @@ Definition sp_step (s : sst) (o : op) : sst :=
       | _, _ => if sp_open s t && sp_open s u && negb (Nat.eqb t u)
                 then sp_commit u (sp_commit t s) else s
       end
-  | Abort t =>
+  | Abort t | CommitFail t =>   (* a failed commit leaves everything as before begin *)
       match t with
       | O => s
       | _ => SSt (sp_rows s) (delete t (sp_txs s))
